@@ -9,6 +9,7 @@ Emits into these formats from the cdd_python common IR format:
 """
 
 from collections import OrderedDict
+from copy import deepcopy
 from functools import partial
 
 from cdd.shared.docstring_utils import (
@@ -74,6 +75,7 @@ def docstring(
     :rtype: ```str```
     """
     # _sep = tab * indent_level
+    intermediate_repr = deepcopy(intermediate_repr)
     params = "\n{maybe_nl}".format(
         maybe_nl="\n" if docstring_format == "rest" and purpose != "class" else ""
     ).join(
